@@ -136,6 +136,8 @@ def sv_real(rng):
     d1 = rng.choice(("0", "1", "12", "3"))
     d2 = rng.choice(("5", "25", "0", "001"))
     e = rng.choice(("2", "02", "10"))
+    if rng.random() < 0.04:
+        e = rng.choice(("400", "999"))     # beyond what a float holds
     body = {
         "d.d": f"{d1}.{d2}", "d.": f"{d1}.", ".d": f".{d2}",
         "d.dEd": f"{d1}.{d2}E{e}", "dEd": f"{d1}E{e}", ".dE+d": f".{d2}E+{e}",
@@ -404,6 +406,10 @@ def gen_statements(rng, reader, doc, toks, tree, depth, n):
         doc.n_statements += 1
         sid = doc.n_statements
         name = gen_name(rng, reader)
+        if tree and rng.random() < 0.06:
+            # the name of an earlier statement of this block in another
+            # letter case (names are case-sensitive to every reader)
+            name = rng.choice(tree)[0].swapcase()
         if rng.random() < 0.22 and depth < 3:
             kind = rng.choice(("group", "object"))
             base = kind.upper()
